@@ -29,7 +29,8 @@ def load_detector(detector: Detector, filename: str | Path) -> None:
             f" '{type(detector).__name__}', expected '{type(new_detector).__name__}'"
         )
 
-    detector = new_detector
+    # Replace the data containers of the running detector by the loaded ones
+    detector.replace_data(new_detector)
 
 
 def save_detector(detector: Detector, filename: str | Path) -> None:
